@@ -11,7 +11,7 @@ VO = ['theories/Props/C14.vo', 'theories/Run/RunDwt.vo']
 RULE = ('correspondence A: DWTForward/DWTInverse built from a 4-tuple whose column and row filters have DIFFERENT lengths (so an exchanged pair '
         'changes shapes as well as values), and from a 2-tuple, buffers read back by name and checked against the constructor order; '
         'AFB2D/SFB2D and functional afb2d/sfb2d on the same filters; oracle: 4-tuple modules vs pywt.wavedec2/waverec2 with one wavelet per axis '
-        'and vs lowlevel.afb2d/sfb2d. distinct by (entry, Lr, Lc, HxW, mode, J).')
+        'and vs lowlevel.afb2d/sfb2d; 4-tuples whose row and column banks share the lowpass or the highpass but differ in the other filter (sign / reversal variants) vs pywt with custom wavelets. distinct by (entry, Lr, Lc, HxW, mode, J).')
 TRUSTED = TRUSTED_COMMON
 ASSUMES = ['which buffer the module hands to which parameter of the Function is pinned by the exact correspondence (row/column filters of different lengths) and the oracle; the theorems relate the Function to the functional bank and the row pass to the last axis']
 
@@ -21,6 +21,9 @@ def corr_jobs(tier, rng):
     LL = [(2, 4), (4, 2), (4, 6), (6, 2)] if tier == 'quick' else [(2, 4), (4, 2), (4, 6), (6, 2), (8, 4), (2, 10)]
     cs = cd.cases_modules_2d(rng, LL, lambda a, b: [(3, 4), (5, 7), (8, 8), (9, 12), (13, 6), (2 * a + 1, 2 * b)], modes, Js=(1, 2), four=True, none_masks=True)
     cs += cd.cases_modules_2d(rng, [(2, 4), (2, 6)], lambda a, b: [(5, 8), (9, 7)], modes, Js=(1, 2), four=False)
+    # 4-tuples whose row and column banks share one filter (same lowpass / same highpass) but differ in the other
+    for sh in ('low', 'high'):
+        cs += cd.cases_modules_2d(rng, [(4, 4), (2, 2)] if tier == 'quick' else [(4, 4), (2, 2), (6, 6)], lambda a, b: [(5, 8), (8, 8)], modes, Js=(1, 2), four=True, share=sh)
     cs += cd.cases_functions_2d(rng, LL[:3], lambda a, b: [(5, 8), (8, 5), (7, 7)], modes, NC=((1, 2),))
     cs += [c for c in cd.cases_nonsep(rng, [(2, 4), (4, 6)], lambda a, b: [(6, 9), (9, 12)]) if c.entry in (18, 19)]
     yield dict(name='model_vs_impl', module='Run.RunDwt', runner='run_dwt', cases=cs, against='impl')
@@ -41,10 +44,17 @@ def oracle_cases(tier, rng):
         L = pywt.Wavelet(wn).dec_len
         for mode in MODES5:
             yield dict(kind='2d', check='two', wave=wn, mode=mode, J=1, H=13, W=10, nb=1, C=1, axes=[(13, L), (10, L)], seed=int(rng.integers(1 << 30)))
+    # the row bank shares its lowpass (or its highpass) with the column bank but differs in the other filter: still four independent filters
+    for wn in ['db2', 'sym4', 'bior2.2'] if tier == 'quick' else ['db2', 'db3', 'sym4', 'bior2.2', 'coif1', 'haar']:
+        L = pywt.Wavelet(wn).dec_len
+        for variant in ('neg_high', 'rev_high', 'neg_low'):
+            for mode in (MODES5 if tier == 'thorough' else ['zero', 'symmetric', 'periodization']):
+                for J in (1, 2):
+                    yield dict(kind='2d', check='shared', wave=wn, variant=variant, mode=mode, J=J, H=12, W=18, nb=1, C=2, axes=[(12, L), (18, L)], seed=int(rng.integers(1 << 30)))
 
 
 def strat_key(cfg):
-    return '%s/%s/%s/%s/J%d' % (cfg['check'], cfg['wave'], cfg.get('wave_row'), cfg['mode'], cfg['J'])
+    return '%s/%s/%s/%s/J%d' % (cfg['check'], cfg['wave'], cfg.get('wave_row') or cfg.get('variant'), cfg['mode'], cfg['J'])
 
 
 def oracle_run(cfg):
@@ -65,6 +75,28 @@ def oracle_run(cfg):
             for u, v in ((a, b), (a, c)):
                 if not (torch.equal(u[0], v[0]) and torch.equal(u[1][0], v[1][0])):
                     return dict(detail='2-tuple / name / repeated 4-tuple constructions disagree')
+            return None
+        if chk == 'shared':
+            lo, hi, rlo, rhi = [np.array(f) for f in wc.filter_bank]
+            v = cfg['variant']
+            if v == 'neg_high': row = (lo, -hi, rlo, -rhi)
+            elif v == 'rev_high': row = (lo, hi[::-1].copy(), rlo, rhi[::-1].copy())
+            else: row = (-lo, hi, -rlo, rhi)
+            wrow = pywt.Wavelet('row_' + v, filter_bank=[list(f) for f in row])
+            want = pywt.wavedec2(X, (wc, wrow), mode=mode, level=J, axes=(-2, -1))
+            yl, yh = DWTForward(J=J, wave=(lo, hi, row[0], row[1]), mode=mode)(torch.tensor(X))
+            sc = dwtfam.gain(cfg['wave'], J, 2) ** 2
+            ok, msg = tol_close(yl.numpy(), want[0], sc)
+            if not ok: return dict(detail='shared-filter 4-tuple: lowpass differs from pywt with one wavelet per axis: ' + msg)
+            for j in range(J):
+                got = yh[j].numpy(); ref_j = np.stack(want[J - j], axis=2)
+                if got.shape != ref_j.shape: return dict(detail='shared-filter 4-tuple: level %d shape %s vs %s' % (j + 1, got.shape, ref_j.shape))
+                ok, msg = tol_close(got, ref_j, sc)
+                if not ok: return dict(detail='shared-filter 4-tuple (%s): level %d differs from pywt with one wavelet per axis: %s' % (v, j + 1, msg))
+            if v != 'rev_high':       # the reversed highpass is not a reconstructing pair; the sign variants are
+                z = DWTInverse(wave=(rlo, rhi, row[2], row[3]), mode=mode)((yl, yh)).numpy()
+                ok, msg = tol_close(z[..., :cfg['H'], :cfg['W']], X, sc)
+                if not ok: return dict(detail='shared-filter 4-tuple (%s): inverse does not reconstruct: %s' % (v, msg))
             return None
         ref = pywt.wavedec2(X, c01.pywt_arg(cfg), mode=mode, level=J, axes=(-2, -1))
         if chk == 'inv_none':
